@@ -12,6 +12,7 @@ import (
 	"context"
 	"encoding/json"
 	"fmt"
+	"math/bits"
 	"reflect"
 	"sort"
 	"strings"
@@ -284,7 +285,7 @@ func (e *c12Env) wellTyped(ent *c12Entry, s c12Step) bool {
 	if ent.srcKey > 0 && ent.srcKey < len(s.K) {
 		k = s.K[ent.srcKey]
 	}
-	return e.tw.mB.Exists(k) && e.tw.mB.Type(k) == ent.mtype
+	return e.tw.mB.Exists(k) && (ent.mtype == "*" || e.tw.mB.Type(k) == ent.mtype)
 }
 
 func (e *c12Env) step(s c12Step) string {
@@ -395,7 +396,25 @@ func (e *c12Env) pipeline(s c12Step) string {
 
 type c12G struct {
 	rt      *rapid.T
+	bit     *rapid.Generator[bool]
 	elapsed time.Duration
+}
+
+// uni draws uniformly from [0,n). rapid's IntRange / SampledFrom are deliberately
+// biased towards small values (a geometric bit length), which starves most of a
+// 100-entry table; single bits are unbiased and still shrink towards 0.
+func (g *c12G) uni(n int) int {
+	if n <= 1 {
+		return 0
+	}
+	v := 0
+	for i := bits.Len(uint(n-1)) + 5; i > 0; i-- {
+		v <<= 1
+		if g.bit.Draw(g.rt, "b") {
+			v |= 1
+		}
+	}
+	return v % n
 }
 
 var c12Pools = map[string][]string{
@@ -422,14 +441,14 @@ var c12AllKeys = func() []string {
 // key draws a key of the pool made for typ; about 1 in 12 draws comes from any pool
 // (deliberately wrong-typed).
 func (g *c12G) key(typ string) string {
-	if rapid.IntRange(0, 11).Draw(g.rt, "wrongtyped") == 0 {
-		return rapid.SampledFrom(c12AllKeys).Draw(g.rt, "anykey")
+	if g.uni(12) == 0 {
+		return c12AllKeys[g.uni(len(c12AllKeys))]
 	}
-	return rapid.SampledFrom(c12Pools[typ]).Draw(g.rt, "key")
+	return c12Pools[typ][g.uni(len(c12Pools[typ]))]
 }
 
 func (g *c12G) keys(typ string, lo, hi int) []string {
-	n := rapid.IntRange(lo, hi).Draw(g.rt, "nkeys")
+	n := lo + g.uni(hi-lo+1)
 	ks := make([]string, n)
 	for i := range ks {
 		ks[i] = g.key(typ)
@@ -438,7 +457,7 @@ func (g *c12G) keys(typ string, lo, hi int) []string {
 }
 
 func (g *c12G) from(label string, xs ...string) string {
-	return rapid.SampledFrom(xs).Draw(g.rt, label)
+	return xs[g.uni(len(xs))]
 }
 
 func (g *c12G) val() string    { return g.from("val", "a", "b", "c", "") }
@@ -447,7 +466,7 @@ func (g *c12G) field() string  { return g.from("field", "f1", "f2", "f3", "f4") 
 func (g *c12G) member() string { return g.from("member", "m1", "m2", "m3", "m4") }
 
 func (g *c12G) strs(f func() string, lo, hi int) []string {
-	n := rapid.IntRange(lo, hi).Draw(g.rt, "n")
+	n := lo + g.uni(hi-lo+1)
 	out := make([]string, n)
 	for i := range out {
 		out[i] = f()
@@ -457,8 +476,9 @@ func (g *c12G) strs(f func() string, lo, hi int) []string {
 
 // idx: indices / ranks / range ends: {min, -2..5, max} plus values that do not fit 32 bits.
 func (g *c12G) idx() int64 {
-	return rapid.SampledFrom([]int64{-2, -1, 0, 1, 2, 3, 4, 5, -2, -1, 0, 1, 2, 3,
-		-(1 << 62), 1 << 62, 1<<32 + 1, -(1 << 32) - 1}).Draw(g.rt, "idx")
+	xs := []int64{-2, -1, 0, 1, 2, 3, 4, 5, -2, -1, 0, 1, 2, 3,
+		-(1 << 62), 1 << 62, 1<<32 + 1, -(1 << 32) - 1}
+	return xs[g.uni(len(xs))]
 }
 
 // idxInt: the same for the methods that take a Go int (64 bit here).
@@ -466,20 +486,22 @@ func (g *c12G) idxInt() int64 { return g.idx() }
 
 // score: integer scores {-2..5} plus values beyond 32 bits (exact in float64).
 func (g *c12G) score() int64 {
-	return rapid.SampledFrom([]int64{-2, -1, 0, 1, 2, 3, 4, 5, -2, 0, 1, 3, 1 << 33, -(1 << 33), 1<<33 + 1}).Draw(g.rt, "score")
+	xs := []int64{-2, -1, 0, 1, 2, 3, 4, 5, -2, 0, 1, 3, 1 << 33, -(1 << 33), 1<<33 + 1}
+	return xs[g.uni(len(xs))]
 }
 
 func (g *c12G) fscore() float64 {
-	return rapid.SampledFrom([]float64{0.5, 1.5, -2.5, 2.9, -2.9, 3, 2.5, -0.5, 4.999, 1 << 33}).Draw(g.rt, "fscore")
+	xs := []float64{0.5, 1.5, -2.5, 2.9, -2.9, 3, 2.5, -0.5, 4.999, 1 << 33}
+	return xs[g.uni(len(xs))]
 }
 
-func (g *c12G) secs() int64 { return int64(rapid.IntRange(1, 100).Draw(g.rt, "secs")) }
+func (g *c12G) secs() int64 { return int64(1 + g.uni(100)) }
 
-func (g *c12G) small(lo, hi int) int64 { return int64(rapid.IntRange(lo, hi).Draw(g.rt, "small")) }
+func (g *c12G) small(lo, hi int) int64 { return int64(lo + g.uni(hi-lo+1)) }
 
 func c12Gen(rt *rapid.T) c12Case {
-	g := &c12G{rt: rt}
-	n := rapid.IntRange(10, 60).Draw(rt, "nsteps")
+	g := &c12G{rt: rt, bit: rapid.Bool()}
+	n := 10 + g.uni(51)
 	var c c12Case
 	for i := 0; i < n; i++ {
 		c.Steps = append(c.Steps, c12GenStep(g, true))
@@ -488,27 +510,28 @@ func c12Gen(rt *rapid.T) c12Case {
 }
 
 func c12GenStep(g *c12G, top bool) c12Step {
-	roll := rapid.IntRange(0, 99).Draw(g.rt, "roll")
+	roll := g.uni(100)
 	switch {
 	case top && roll < 5:
-		d := rapid.SampledFrom([]int64{500, 1000, 1500, 2000, 10000, 60000, 100000}).Draw(g.rt, "advance")
+		ds := []int64{500, 1000, 1500, 2000, 10000, 60000, 100000}
+		d := ds[g.uni(len(ds))]
 		g.elapsed += time.Duration(d) * time.Millisecond
 		return c12Step{C: "advance", I: []int64{d}}
 	case top && roll < 10:
-		np := rapid.IntRange(0, 5).Draw(g.rt, "npipe")
-		s := c12Step{C: "pipeline", X: rapid.Bool().Draw(g.rt, "x")}
+		np := g.uni(6)
+		s := c12Step{C: "pipeline", X: g.uni(2) == 1}
 		for j := 0; j < np; j++ {
-			name := rapid.SampledFrom(c12PipeNames).Draw(g.rt, "pipecmd")
+			name := c12PipeNames[g.uni(len(c12PipeNames))]
 			q := c12Table[name].gen(g)
 			q.C = name
 			s.P = append(s.P, q)
 		}
 		return s
 	}
-	name := rapid.SampledFrom(c12Weighted).Draw(g.rt, "cmd")
+	name := c12Weighted[g.uni(len(c12Weighted))]
 	s := c12Table[name].gen(g)
 	s.C = name
-	s.X = rapid.Bool().Draw(g.rt, "x")
+	s.X = g.uni(2) == 1
 	return s
 }
 
